@@ -182,6 +182,7 @@ func (P *Program) newInterpreter() *interpreter {
 // runOnce executes the harness once under the current prefix.
 func (P *Program) runOnce(entry *ssa.Function, initPkgs []*ssa.Package, ex *Explorer) (outcome string, detail string) {
 	i := P.newInterpreter()
+	RD.reset()
 	SC = newSched(i, ex.cfg.Preempt)
 	onceRan = map[*value]bool{}
 	onceDone = map[*value]bool{}
